@@ -22,6 +22,7 @@ func init() {
 				for b := 0; b <= mx; b++ {
 					in := mk("common", "VerifC20Sets", cs("n1", a, "n2", b))
 					in.Unwind = 40
+					in.MaxSeconds = 3600
 					is = append(is, in)
 				}
 			}
